@@ -36,6 +36,7 @@ type Env struct {
 	inOld  bool
 	errs   []string
 	allocAtEntry *Term
+	zeroLocals bool // locals not yet assigned at this program point read as their zero value (return-site assertions)
 	pending *[]*Term // facts about loaded values that mention quantifier-bound variables (closed off by the binder)
 }
 
